@@ -481,6 +481,17 @@ func TestCheck(t *testing.T) {
 	r := mc.New(t, "C02")
 	defer r.Finish()
 	if r.Replay != nil {
+		var probe struct {
+			Family string `json:"family"`
+		}
+		r.DecodeReplay(&probe)
+		if probe.Family == "slow-dial" {
+			var sc SlowCase
+			r.DecodeReplay(&sc)
+			k, d := executeSlow(t, sc)
+			recordSlow(r, sc, k, d)
+			return
+		}
 		var c Case
 		r.DecodeReplay(&c)
 		if c.Carrier == "listener-wiring" {
@@ -643,6 +654,13 @@ func TestCheck(t *testing.T) {
 				idx++
 			}
 		}
+	}
+	for _, sc := range slowCases(r.Thorough()) {
+		if r.Mine(idx) {
+			k, d := executeSlow(t, sc)
+			recordSlow(r, sc, k, d)
+		}
+		idx++
 	}
 	// real-socket pass: the client's SocketListener
 	for _, mode := range listenerWiringModes() {
